@@ -24,8 +24,8 @@ def note_key(line):
 
 class C03(Spec):
     pid = "C03"
-    lean_module = "NunVerif.Props.C03"
-    theorems = ["Nun.C03_write_accepted", "Nun.C03_write_refused", "Nun.C03_remove_notifies", "Nun.C03_increment_accepted", "Nun.C03_increment_refused",
+    lean_module = "NunVerif.Props.C03Notify"
+    theorems = ["Nun.C03_changed_fanout_reaches_every_subscriber", "Nun.C03_removed_fanout_reaches_every_subscriber", "Nun.C03_write_accepted", "Nun.C03_write_refused", "Nun.C03_remove_notifies", "Nun.C03_increment_accepted", "Nun.C03_increment_refused",
                 "Nun.C03_other_clients_cannot_touch", "Nun.C03_unsubscribe", "Nun.C03_ends_current", "Nun.watch_nodup", "Nun.unwatch_nodup"]
     rule = ("two writer sessions and two subscriber sessions on one database: all sequences of length L (3 quick / 4 thorough) over {watch a, watch b, unwatch a, unwatch-all, disconnect+reconnect} per subscriber and "
             "{set, set-safe accepted/refused, increment ok/non-numeric, remove, replicated set/remove/increment, refused secure-key write} per writer, plus seeded random sequences of 6-20 operations, plus all sequences of length 2 behind a DEAD subscriber (a session that watched the keys first, selected another database and closed: its senders stay registered and every send to them fails); "
